@@ -31,6 +31,10 @@ MOLS = {
     "H2O_lab": "O 0 0 0.1; H1 0 0.757 0.587; H2 0 -0.757 0.587",
     "H2_lab": "H1 0 0 0; H2 0 0 0.74",
     "CH3_lab": "C 0 0 0; H1 0 1.0 0.3; H 0.87 -0.5 0.3; H1 -0.87 -0.5 0.3",
+    # effective core potentials: mol.atom_charge() is then the EFFECTIVE charge (Z minus the removed core), while the grid of
+    # an atom (radial / angular sizes, pruning radii) is the grid of its element
+    "NaH_ecp": {"atom": "Na 0 0 0; H 0 0 1.9", "basis": {"Na": "lanl2dz", "H": "sto-3g"}, "ecp": {"Na": "lanl2dz"}},
+    "SiH2_ecp": {"atom": "Si 0 0 0; H 0 1.1 0.9; H 0 -1.1 0.9", "basis": {"Si": "lanl2dz", "H": "sto-3g"}, "ecp": {"Si": "lanl2dz"}},
 }
 PRUNES = {"nwchem": gen_grid.nwchem_prune, "sg1": gen_grid.sg1_prune, "treutler": gen_grid.treutler_prune, "none": None}
 
@@ -87,7 +91,11 @@ def stage_of(grids, mol, all_coords, phase):
 
 
 def observe(cfg, rid):
-    mol = gto.M(atom=MOLS[cfg["mol"]], basis="sto-3g", verbose=0, spin=cfg.get("spin", 0))
+    spec = MOLS[cfg["mol"]]
+    if isinstance(spec, dict):
+        mol = gto.M(verbose=0, spin=cfg.get("spin", 0), **spec)
+    else:
+        mol = gto.M(atom=spec, basis="sto-3g", verbose=0, spin=cfg.get("spin", 0))
     g = CiderGrids(mol, lmax=cfg["lmax"])
     ref = dft.Grids(mol)
     for o in (g, ref):
@@ -205,6 +213,10 @@ def configs(tier, rnd):
                   ("CH3_lab", {"H": [5, 14], "H1": [5, 26]}), ("H2O", {"H": [6, 26]}), ("H2O_lab", None)):
         for pr in ("nwchem", "none"):
             out.append(dict(base, mol=m, atom_grid=ag, prune=pr, spin=1 if m.startswith("CH3") else 0))
+    for m in ("NaH_ecp", "SiH2_ecp"):
+        for lvl in (0, 1):
+            out.append(dict(base, mol=m, level=lvl))
+        out.append(dict(base, mol=m, atom_grid=[8, 26], prune="none"))
     out.append(dict(base, mol="H2O", sort=False))
     out.append(dict(base, mol="CH3", spin=1, sort=False, align=1))
     for thr in ([1e-2], [1e-4, 1e-2], [1e-1], [1e-6]):
